@@ -63,7 +63,7 @@ Proof.
              end = match tr_block ml f glob ld s1 rest with None => None | Some (ms, s2) => Some (ns0 ++ ms, s2) end).
   { intros [[ns s1']|] H; [|discriminate]. rewrite Hnil in H. inversion H; subst. rewrite app_nil_r. reflexivity. }
   destruct p; cbn [tr_block]; try (apply K).
-  - apply (K (Some (tr_assign glob x e s))).
+  - apply (K (Some (tr_assign glob x (rt_ann ml e) s))).
   - apply (K (Some ([NAssign x (XAug x op (a_id e))], with_ty x t_after s))).
   - apply (K (Some ([NWrite (a_id e)], s))).
   - apply (K (Some ([NSleep (a_id e)], s))).
@@ -71,11 +71,11 @@ Qed.
 
 Lemma tr_block_accepts ml : forall f gf glob top lm ld s D L ps D',
   implb ml (Nat.leb 1 ld) = true ->
-  glob = top && negb lm -> implb lm (no_top_tuple D ps) = true ->
+  glob = top -> (top = true -> ml = lm) -> implb lm (no_top_tuple D ps) = true ->
   g_block gf top D L ps = Some D' -> Dec D L s -> brk_l ml ld ps = true -> (S (sz ps) <= f)%nat ->
   exists ns s', tr_block ml f glob ld s ps = Some (ns, s').
 Proof.
-  induction f as [|f IH]; intros gf glob top lm ld s D L ps D' Hml HGL Htup HG HD HB Hf; [lia|].
+  induction f as [|f IH]; intros gf glob top lm ld s D L ps D' Hml HGL HLM Htup HG HD HB Hf; [lia|].
   destruct ps as [|p rest]; [eexists; eexists; reflexivity|].
   apply g_block_cons_inv in HG as (gf' & D1 & -> & HS & HG).
   cbn [brk_l] in HB. apply andb_true_iff in HB as [HB1 HBr]. cbn [sz] in Hf.
@@ -91,7 +91,7 @@ Proof.
   assert (HEAD : exists ns0 s1, tr_block ml (S F) glob ld s [p] = Some (ns0, s1)).
   { rewrite brk_ok_unfold in HB1.
     destruct p; cbn [tr_block].
-    - destruct (tr_assign glob x e s) as [a b]. eexists; eexists; rewrite ?Hnil; reflexivity.
+    - destruct (tr_assign glob x (rt_ann ml e) s) as [a b]. eexists; eexists; rewrite ?Hnil; reflexivity.
     - eexists; eexists; rewrite ?Hnil; reflexivity.
     - (* tuple *)
       cbn [g_step] in HS.
@@ -100,6 +100,9 @@ Proof.
         - apply tuple_asg_ok_inv in Hq as (_ & _ & Hq). apply tuple_asg_tys_inv in Hq as [Hq _]. exact Hq.
         - destruct (top && tuple_decl_ok D L xs es) eqn:Hk; [|discriminate].
           apply andb_true_iff in Hk as [_ Hk]. destruct (tuple_decl_ok_inv _ _ _ _ Hk) as (Hlen & _). exact Hlen. }
+      destruct (glob && ml).
+      { unfold tr_tuple_main. rewrite Hlen, Nat.leb_refl. cbn [negb].
+        destruct (tuple_binds_main _ _ _ _) as [a b]. eexists; eexists; rewrite ?Hnil; reflexivity. }
       unfold tr_tuple. rewrite Hlen, Nat.leb_refl. cbn [negb].
       destruct (_ && glob).
       + destruct (tuple_global _ _ _) as [a b]. eexists; eexists; rewrite ?Hnil; reflexivity.
@@ -112,7 +115,7 @@ Proof.
       apply andb_true_iff in HB1 as [HBb HBe]. apply andb_true_iff in HBb as [HBb HBl].
       assert (NEST : forall b gl, g_block gf' false D L b = Some D -> brk_l ml ld b = true -> (S (sz b) <= F)%nat ->
                      exists nsb cs, tr_block ml F false ld (child_of s gl) b = Some (nsb, cs)).
-      { intros b gl Hg Hb Hs. eapply (IH gf' false false false ld _ D L b D Hml eq_refl eq_refl Hg (Dec_child D L s gl HD) Hb Hs). }
+      { intros b gl Hg Hb Hs. eapply (IH gf' false false false ld _ D L b D Hml eq_refl (no_top ml) eq_refl Hg (Dec_child D L s gl HD) Hb Hs). }
       destruct (NEST body (globals s) H1 HBb ltac:(lia)) as (ns1 & cs1 & E1). rewrite E1.
       match goal with |- context [?B (globals cs1) elifs] => set (BR := B) end.
       assert (HBR : forall l gl, (forall cb, In cb l -> g_block gf' false D L (snd cb) = Some D) ->
@@ -138,7 +141,7 @@ Proof.
       cbn [g_step] in HS.
       match type of HS with (if ?cnd then _ else _) = _ => destruct cnd eqn:Hc; [|discriminate] end.
       apply andb_true_iff in Hc as [_ H1]. apply nested_true in H1.
-      destruct (IH gf' false false false (S ld) (child_of s (globals s)) D L body D (ml_S _ _ Hml) eq_refl eq_refl H1
+      destruct (IH gf' false false false (S ld) (child_of s (globals s)) D L body D (ml_S _ _ Hml) eq_refl (no_top ml) eq_refl H1
                   (Dec_child D L s (globals s) HD) HB1 ltac:(lia)) as (nsb & cs & Eb).
       rewrite Eb.
       match goal with |- context [promo_decls ?G ?N ?S] => destruct (promo_decls G N S) as [decls s3] end.
@@ -158,7 +161,7 @@ Proof.
       assert (HDb : Dec D (x :: L) base).
       { intro y. unfold base. cbn [declared]. rewrite tmem_app, (HD y). cbn [tmem].
         destruct (tmem y (map fst D)), (tmem y L), (text_eqb y x); reflexivity. }
-      destruct (IH gf' false false false (S ld) base D (x :: L) body D (ml_S _ _ Hml) eq_refl eq_refl H8 HDb HB1 ltac:(lia)) as (nsb & cs & Eb).
+      destruct (IH gf' false false false (S ld) base D (x :: L) body D (ml_S _ _ Hml) eq_refl (no_top ml) eq_refl H8 HDb HB1 ltac:(lia)) as (nsb & cs & Eb).
       rewrite Eb.
       match goal with |- context [promo_decls ?G ?N ?S] => destruct (promo_decls G N S) as [decls s3] end.
       eexists; eexists; rewrite ?Hnil; reflexivity.
@@ -177,8 +180,8 @@ Proof.
   assert (HD1 : Dec D1 L s1).
   { assert (G1 : g_block (S gf') top D L [p] = Some D1).
     { rewrite g_block_cons, HS. destruct gf'; [discriminate HG|]. reflexivity. }
-    destruct (tr_block_simple ml _ _ glob top lm _ _ _ _ _ _ _ _ Hml HGL Htp G1 HD HEAD) as (_ & _ & X & _). exact X. }
-  destruct (IH gf' glob top lm ld s1 D1 L rest D' Hml HGL Htr HG HD1 HBr ltac:(lia)) as (ms & s2 & Er).
+    destruct (tr_block_simple ml _ _ glob top lm _ _ _ _ _ _ _ _ Hml HGL HLM Htp G1 HD HEAD) as (_ & _ & X & _). exact X. }
+  destruct (IH gf' glob top lm ld s1 D1 L rest D' Hml HGL HLM Htr HG HD1 HBr ltac:(lia)) as (ms & s2 & Er).
   exists (ns0 ++ ms), s2. rewrite (tr_block_cons _ _ _ _ _ _ rest _ _ Hnil HEAD), Er. reflexivity.
 Qed.
 
@@ -188,14 +191,14 @@ Proof.
   apply andb_true_iff in HG as [_ HG]. apply andb_true_iff in HB as [HB1 HB2].
   destruct (g_block (bsize (p_pre p)) true [] [] (p_pre p)) as [D|] eqn:G1; [|discriminate].
   assert (HD0 : Dec [] [] st0) by (intro x; reflexivity).
-  destruct (tr_block_accepts false (bsize (p_pre p)) _ true true false 0 st0 [] [] (p_pre p) D eq_refl eq_refl eq_refl G1 HD0 HB1)
+  destruct (tr_block_accepts false (bsize (p_pre p)) _ true true false 0 st0 [] [] (p_pre p) D eq_refl eq_refl (fun _ => eq_refl) eq_refl G1 HD0 HB1)
     as (setup & s1 & T1); [rewrite bsize_sz; lia|].
   rewrite T1.
   destruct (p_main p) as [body|]; [|eexists; reflexivity].
   apply andb_true_iff in HG as [HNT HG].
   destruct (g_block (bsize body) true D [] body) as [D2|] eqn:G2; [|discriminate].
-  destruct (tr_block_simple false _ _ true true false _ _ _ _ _ _ _ _ eq_refl eq_refl eq_refl G1 HD0 T1) as (_ & _ & S3 & _).
-  destruct (tr_block_accepts true (bsize body) _ false true true 1 s1 D [] body D2 eq_refl eq_refl HNT G2 S3 HB2)
+  destruct (tr_block_simple false _ _ true true false _ _ _ _ _ _ _ _ eq_refl eq_refl (fun _ => eq_refl) eq_refl G1 HD0 T1) as (_ & _ & S3 & _).
+  destruct (tr_block_accepts true (bsize body) _ true true true 1 s1 D [] body D2 eq_refl eq_refl (fun _ => eq_refl) HNT G2 S3 HB2)
     as (loop & s2 & T2); [rewrite bsize_sz; lia|].
   rewrite T2. eexists; reflexivity.
 Qed.
